@@ -161,7 +161,8 @@ def one_build(job):
 
 def suite_matrix(ctx, res, thorough):
     jobs = [("base", {}, None)]
-    perturb = PERTURB if thorough else ctx.rng.sample(PERTURB, 8)
+    # upem 2048 always: the default clip-box step round(0.02 * upem) = 41 is only distinguishable from a floored 40 off the usual upems
+    perturb = PERTURB if thorough else [("upem", 2048)] + ctx.rng.sample([p_ for p_ in PERTURB if p_ != ("upem", 2048)], 7)
     for k, v in perturb:
         jobs.append((f"{k}={v}:flag", {k: v}, None))
         jobs.append((f"{k}={v}:file", {}, {k: v}))
